@@ -400,9 +400,87 @@ fn scale_case(kind: u8, n: usize) -> Result<(), String> {
     Ok(())
 }
 
+/// Pacing switched to stop-the-world while the collector is in phase `at` (0 Sleeping before any cycle,
+/// 1 Marking, 2 Marked, 3 Sweeping, 4 Sleeping after a cycle) of a default-paced arena holding 300
+/// reachable + 300 unreachable objects: the next debt-driven call (0 collect_debt, 1 cycle_debt) with
+/// positive debt must not return before the collector sleeps again.
+fn switch_case(at: u8, call: u8) -> Result<(), String> {
+    let mut arena = Arena::<Rootable![Vec<Gc<'_, N<'_>>>]>::new(|_| vec![]);
+    let m = arena.metrics().clone();
+    arena.mutate_root(|mc, root| {
+        for i in 0..300u32 {
+            root.push(Gc::new(mc, N { next: Lock::new(None), _pad: i }));
+            Gc::new(mc, N { next: Lock::new(None), _pad: 0 });
+        }
+    });
+    match at {
+        0 => {}
+        1 => {
+            // a few increments of marking under the default pacing
+            m.adjust_debt(1.0e6);
+            let d = m.allocation_debt();
+            m.adjust_debt(3.0 - d);
+            let _ = arena.mark_debt();
+            if arena.collection_phase() != P::Marking {
+                return Err(format!("harness: expected Marking, got {:?}", arena.collection_phase()));
+            }
+        }
+        2 => {
+            let _ = arena.finish_marking();
+        }
+        3 => {
+            if let Some(ma) = arena.finish_marking() {
+                ma.start_sweeping();
+            }
+        }
+        _ => {
+            arena.finish_cycle();
+            arena.mutate(|mc, _| {
+                for _ in 0..300 {
+                    Gc::new(mc, N { next: Lock::new(None), _pad: 0 });
+                }
+            });
+        }
+    }
+    m.set_pacing(Pacing::STOP_THE_WORLD);
+    m.adjust_debt(5.0);
+    if !(m.allocation_debt() > 0.0) {
+        return Err("harness: no debt".into());
+    }
+    if call == 0 {
+        arena.collect_debt();
+    } else {
+        arena.cycle_debt();
+    }
+    if arena.collection_phase() != P::Sleeping {
+        return Err(format!("all work factors set to zero while {}, positive debt: the call returned in phase {:?} ({} allocations left, 300 reachable)", ["Sleeping before the first cycle", "Marking", "Marked", "Sweeping", "Sleeping after a cycle"][at as usize], arena.collection_phase(), m.total_gc_count()));
+    }
+    if call == 0 && m.allocation_debt() != 0.0 {
+        return Err(format!("collect_debt (after adjust_debt(5)) returned with debt {}", m.allocation_debt()));
+    }
+    // a second adjustment is paid the same way: nothing of the first one is left over
+    m.adjust_debt(1.0e6);
+    let d = m.allocation_debt();
+    m.adjust_debt(7.0 - d);
+    if (m.allocation_debt() - 7.0).abs() > 1e-6 {
+        return Err(format!("debt normalised to 7 reads {}", m.allocation_debt()));
+    }
+    arena.collect_debt();
+    if m.allocation_debt() != 0.0 || arena.collection_phase() != P::Sleeping {
+        return Err(format!("second collect_debt returned with debt {} in phase {:?}", m.allocation_debt(), arena.collection_phase()));
+    }
+    Ok(())
+}
+
 pub fn run(thorough: bool, only: Option<&str>) -> GridOut {
     let mut cfgs: Vec<Cfg> = vec![];
     let mut scale: Vec<(String, u8, usize)> = vec![];
+    for at in 0..5u8 {
+        for call in 0..2u8 {
+            // (kind >= 100 encodes a pacing-switch case)
+            scale.push((format!("scale/switch/at{at}/call{call}"), 100 + at * 2 + call, 0));
+        }
+    }
     for &n in if thorough { &[100_000usize, 400_000][..] } else { &[100_000usize][..] } {
         for kind in 0..4u8 {
             scale.push((format!("scale/kind{kind}/n{n}"), kind, n));
@@ -453,16 +531,24 @@ pub fn run(thorough: bool, only: Option<&str>) -> GridOut {
     let viol: Mutex<Vec<(usize, String)>> = Mutex::new(vec![]);
     let stats: Mutex<Stats> = Mutex::new(Stats::default());
     let nthreads = std::thread::available_parallelism().map(|n| n.get()).unwrap_or(4);
+    let ids: Vec<Cfg> = cfgs.clone();
+    let scale_names: Vec<String> = scale.iter().map(|c| c.0.clone()).collect();
+    let ncfg = cfgs.len();
+    let watch = crate::watchdog(nthreads + 1, cfgs.len() + scale.len(), Box::new(move |i| if i < ids.len() { ids[i].id() } else { scale_names[i - ids.len()].clone() }));
     std::thread::scope(|s| {
-        for _ in 0..nthreads {
-            s.spawn(|| {
+        for wi in 0..nthreads {
+            let watch = watch.clone();
+            let (next, viol, stats, cfgs) = (&next, &viol, &stats, &cfgs);
+            s.spawn(move || {
                 let mut st = Stats::default();
                 loop {
                     let i = next.fetch_add(1, Ordering::Relaxed);
                     if i >= cfgs.len() {
                         break;
                     }
+                    watch.begin(wi, i);
                     let r = std::panic::catch_unwind(std::panic::AssertUnwindSafe(|| run_cfg(&cfgs[i], &mut st)));
+                    watch.end(wi);
                     match r {
                         Ok(Ok(())) => {}
                         Ok(Err(e)) => viol.lock().unwrap().push((i, e)),
@@ -484,8 +570,10 @@ pub fn run(thorough: bool, only: Option<&str>) -> GridOut {
     let mut v = viol.into_inner().unwrap();
     v.sort();
     let mut scale_viol: Vec<J> = vec![];
-    for (name, kind, n) in &scale {
-        let r = std::panic::catch_unwind(|| scale_case(*kind, *n)).unwrap_or_else(|p| Err(format!("panic: {}", gcv::wops::panic_msg(&p))));
+    for (si, (name, kind, n)) in scale.iter().enumerate() {
+        watch.begin(nthreads, ncfg + si);
+        let r = std::panic::catch_unwind(|| if *kind >= 100 { switch_case((*kind - 100) / 2, (*kind - 100) % 2) } else { scale_case(*kind, *n) }).unwrap_or_else(|p| Err(format!("panic: {}", gcv::wops::panic_msg(&p))));
+        watch.end(nthreads);
         if let Err(e) = r {
             scale_viol.push(J::obj().with("case", name.as_str()).with("message", e.as_str()));
         }
@@ -496,7 +584,7 @@ pub fn run(thorough: bool, only: Option<&str>) -> GridOut {
         evaluations: cfgs.len() as u64 + scale.len() as u64,
         nontrivial,
         rule: format!(
-            "full grid: pacing factors from the value set with the three documented path sums < 1 (incl. the all-zero stop-the-world row; plus Pacing::DEFAULT) x (sleep_factor, min_sleep) in {{(0,0),(0.5,4),(1,16),(2,1)}} x workloads {:?} x bursts x drivers {:?} x rounds; plus scale cases (heaps of 2 x 100 000 allocations, thorough also 2 x 400 000: stop-the-world collect_debt / cycle_debt end Sleeping with exactly the reachable half left, default-pacing collect_debt returns with zero debt, also after every burst of 2 000); non-trivial = configurations with non-zero work factors (incremental pacing)",
+            "full grid: pacing factors from the value set with the three documented path sums < 1 (incl. the all-zero stop-the-world row; plus Pacing::DEFAULT) x (sleep_factor, min_sleep) in {{(0,0),(0.5,4),(1,16),(2,1)}} x workloads {:?} x bursts x drivers {:?} x rounds; plus scale cases (heaps of 2 x 100 000 allocations, thorough also 2 x 400 000: stop-the-world collect_debt / cycle_debt end Sleeping with exactly the reachable half left, default-pacing collect_debt returns with zero debt, also after every burst of 2 000) and pacing-switch cases (stop-the-world pacing set while Sleeping / Marking / Marked / Sweeping x collect_debt / cycle_debt: the next call with positive debt ends Sleeping); non-trivial = configurations with non-zero work factors (incremental pacing)",
             WORKLOADS, DRIVERS
         ),
         samples: cfgs.iter().step_by((cfgs.len() / 5).max(1)).take(5).map(|c| J::Str(c.id())).collect(),
